@@ -605,7 +605,8 @@ def run_and_collect(ctx, pkgs, procs=8, profile="debug"):
         if not b["ok"]:
             kind = "timeout" if b.get("timeout") else ("panic" if b.get("panic") else "build")
             errs = [x.strip()[-700:] for x in (b.get("diag") or "").split("____") if x.strip().startswith("error")]
-            failures.append({"pkg": p["id"], "kind": kind, "detail": (b.get("panic") or b.get("err") or "") + " | ".join(errs[:2])})
+            failures.append({"pkg": p["id"], "kind": kind, "profile": profile, "source": p["src"],
+                             "detail": (b.get("panic") or b.get("err") or "") + " | " + " | ".join(errs[:2])})
             continue
         if r["runfailed"]:
             failures.append({"pkg": p["id"], "kind": "run", "detail": json.dumps(r["runfailed"])[-800:]})
